@@ -282,6 +282,9 @@ def _lits_spec(rng):
 
 def _gen_api_op(rng, klass):
     r = rng.random()
+    if rng.random() < 0.04:
+        return {"op": "copy", "how": rng.choice(["deepcopy", "deepcopy",
+                                                 "pickle"])}
     if r < 0.22:
         return {"op": "add_clause", "lits": _lits_spec(rng),
                 "check": rng.random() < 0.6}
@@ -456,7 +459,17 @@ def _cli_documented_counts(case, ctx, F, where):
                           and not nums):
             ctx.note("no documented count for -T %s %r" % (tname, targs))
             continue
-        want = fn(counts[j], nums)
+        if tname in ("xorcomp", "majcomp") and targs and \
+                not targs[0].lstrip("-").isdigit():
+            # the mapping given as a bipartite graph '<construction> L R ..':
+            # one new variable per right vertex
+            if targs[0] not in ("complete", "glrd", "glrp", "glrm", "shift",
+                                "regular", "empty") or len(nums) < 2:
+                ctx.note("no documented count for -T %s %r" % (tname, targs))
+                continue
+            want = nums[1]
+        else:
+            want = fn(counts[j], nums)
         if counts[j + 1] != want:
             raise Violation(
                 "C10/documented-count/cli-transformation:%s" % tname,
@@ -568,6 +581,30 @@ def _exec_api(case, ctx, mon):
                 lits, cls = _draw_lits(dict(spec, kind="in"), count)
             return lits, cls
 
+        if kind == "copy":
+            # the history goes on with a copy of the formula: a copy owns
+            # its variables like any other formula
+            import copy as _copy
+            import pickle as _pickle
+            if op["how"] == "pickle":
+                r = call(lambda: _pickle.loads(_pickle.dumps(F)))
+            else:
+                r = call(_copy.deepcopy, F)
+            ctx.log(i, kind, op["how"], r[0])
+            if r[0] == "exc":
+                ctx.note("formula cannot be copied with %s (%s)" %
+                         (op["how"], type(r[1]).__name__))
+                continue
+            old = mon.st(F)
+            F = r[1]
+            mon.state[id(F)] = {"obj": F, "maxm": old["maxm"],
+                                "ins": old["ins"]}
+            ctx.fault("formula_replaced_by_its_copy:" + op["how"])
+            if snapshot() != before:
+                raise Violation("C10/api/copy-differs", "step %d: the %s "
+                                "of the formula is another formula" %
+                                (i, op["how"]))
+            continue
         if kind == "add_clause":
             lits, cls = lits_of(op["lits"], op["check"])
             r = call(F.add_clause, list(lits), check=op["check"])
